@@ -163,7 +163,7 @@ Variable Pop : wop -> Prop.
 Hypothesis Hpop_rrset : forall s hs owner ty cl ttl rds vec, Pop (OAddRrset s hs owner ty cl ttl rds vec).
 Hypothesis Hpop_rr : forall s hs owner ty cl ttl rd vec, Pop (OAddRr s hs owner ty cl ttl rd vec).
 Hypothesis Hpop_aa : forall b, Pop (OSetAa b).
-Hypothesis Hpop_rc : forall rc, Pop (OSetRcode rc).
+Hypothesis Hpop_rc : Pop (OSetRcode RCODE_NXDOMAIN).      (* the only RCODE the answering logic itself sets *)
 Variable negttl : N -> N -> N.
 Variable d0 : dstate.
 Variable g0 : gn.
@@ -237,10 +237,11 @@ Proof.
   - exists w'. split; [reflexivity|]. exact HS'.
   - exfalso. eapply NE; reflexivity.
 Qed.
-Lemma StA_set_rcode d g A rc : StA d g A -> (rc < 16)%N ->
-  exists w', wi_set_rcode w_iface rc (d_w d) = Some w' /\ StA (mkD w' (d_regs d)) g A.
+Lemma StA_set_rcode d g A : StA d g A ->
+  exists w', wi_set_rcode w_iface RCODE_NXDOMAIN (d_w d) = Some w' /\ StA (mkD w' (d_regs d)) g A.
 Proof.
-  intros HS Hrc. destruct (StA_step d g A (OSetRcode rc) HS) as (d' & r & E & HS'); [repeat split; auto; exact I|exact I|reflexivity|].
+  intros HS. destruct (StA_step d g A (OSetRcode RCODE_NXDOMAIN) HS) as (d' & r & E & HS');
+    [split; [exact I|split; [exact I|split; [reflexivity|exact Hpop_rc]]]|exact I|reflexivity|].
   cbn [step] in E. cbn [wi_set_rcode w_iface]. unfold set_rcode in *.
   match type of E with context [w_modify ?a ?b ?c] => pose proof (w_modify_no_err a b c) as NE; destruct (w_modify a b c) as [w'|e|] end;
     cbn [bind of_R] in E; inversion E; subst.
@@ -332,14 +333,14 @@ Qed.
 
 
 (* ---- set_rcode / set_aa in front of a continuation, on both runs *)
-Lemma set_rcode_QC {T} d g A r rc (Post : amsg -> recorder -> Prop)
+Lemma set_rcode_QC {T} d g A r (Post : amsg -> recorder -> Prop)
     (k : writer -> res (perr * writer) (T * writer)) (kr : recorder -> res (perr * recorder) (T * recorder)) :
-  StA d g A -> RelE A r -> (rc < 16)%N ->
+  StA d g A -> RelE A r ->
   (forall d1 r1, StA d1 g A -> d_regs d1 = d_regs d -> RelE A r1 -> QC d1 g Post (k (d_w d1)) (kr r1)) ->
-  QC d g Post (match lift_set (wi_set_rcode w_iface rc (d_w d)) with Ok (_, w1) => k w1 | Err e => Err e | Panic => Panic end)
-              (match lift_set (wi_set_rcode rec_iface rc r) with Ok (_, r1) => kr r1 | Err e => Err e | Panic => Panic end).
+  QC d g Post (match lift_set (wi_set_rcode w_iface RCODE_NXDOMAIN (d_w d)) with Ok (_, w1) => k w1 | Err e => Err e | Panic => Panic end)
+              (match lift_set (wi_set_rcode rec_iface RCODE_NXDOMAIN r) with Ok (_, r1) => kr r1 | Err e => Err e | Panic => Panic end).
 Proof.
-  intros HS HRel Hrc Hk. destruct (StA_set_rcode d g A rc HS Hrc) as (w' & E & HS'). rewrite E, rec_set_rcode. cbn [lift_set].
+  intros HS HRel Hk. destruct (StA_set_rcode d g A HS) as (w' & E & HS'). rewrite E, rec_set_rcode. cbn [lift_set].
   apply (QC_frame d g (mkD w' (d_regs d)) g); [split; [reflexivity|split; apply prefix_refl]|].
   apply (Hk (mkD w' (d_regs d))); auto.
 Qed.
@@ -422,7 +423,7 @@ Proof.
       intros o Ho. rewrite last_opt_snoc in Ho. inversion Ho; subst. auto.
     - destruct G as [GP Gs]. apply (referral_C c ns d1 g1 A1 r1); auto. eapply good_name_suffix; eauto.
     - eapply QC_weaken; [apply RelE_O|]. apply (negsoa_C d1 g1 A1 r1); auto.
-    - apply (set_rcode_QC d1 g1 A1 r1 RCODE_NXDOMAIN); auto; [reflexivity|]. intros d2 r2 HS2 _ HRel2.
+    - apply (set_rcode_QC d1 g1 A1 r1); auto. intros d2 r2 HS2 _ HRel2.
       eapply QC_weaken; [apply RelE_O|]. apply (negsoa_C d2 g1 A1 r2); auto.
     - exists d1, g1, A1, r1. split; [exact HS1|]. split; [reflexivity|]. split; [apply Frame_refl|]. split; [reflexivity|apply RelE_O; exact HRel1]. }
   destruct (Query.last_opt _) as [o|] eqn:Elast.
@@ -486,7 +487,7 @@ Hypothesis Hzone : in_zone apex qname = true.
 Lemma nxdomain_C d g A r : StA d g A -> RelE A r ->
   QC d g RelO (nxdomain w_iface negttl z (d_w d)) (nxdomain rec_iface negttl z r).
 Proof.
-  intros HS HRel. unfold nxdomain. apply (set_rcode_QC d g A r); auto; [reflexivity|]. intros d1 r1 HS1 _ HRel1.
+  intros HS HRel. unfold nxdomain. apply (set_rcode_QC d g A r); auto. intros d1 r1 HS1 _ HRel1.
   apply (set_aa_then_QC d1 g A r1); auto. intros d2 r2 HS2 _ HRel2.
   eapply QC_weaken; [apply RelE_O|]. apply (negsoa_C d2 g A r2); auto.
 Qed.
@@ -601,9 +602,9 @@ Proof.
                  (answering w_iface qname qtype w) (answering rec_iface qname qtype rec_empty)).
   { unfold answering. destruct (qtype =? QTYPE_ANY)%N.
     - apply (answer_any_C reqf apex cls R z Hinv HR Hapex Hclass Pop_t (fun _ _ _ _ _ _ _ _ => I) (fun _ _ _ _ _ _ _ _ => I)
-               (fun _ => I) (fun _ => I) negttl (mkD w0 []) g0 am0 qname Gq Hz (mkD w []) (g_prepared qname) Ap rec_empty Sp HRel0 eq_refl).
+               (fun _ => I) I negttl (mkD w0 []) g0 am0 qname Gq Hz (mkD w []) (g_prepared qname) Ap rec_empty Sp HRel0 eq_refl).
     - apply (answer_C reqf apex cls R z Hinv HR Hapex Hclass Pop_t (fun _ _ _ _ _ _ _ _ => I) (fun _ _ _ _ _ _ _ _ => I)
-               (fun _ => I) (fun _ => I) negttl (mkD w0 []) g0 am0 qname Gq Hz qtype (mkD w []) (g_prepared qname) Ap rec_empty Sp HRel0 eq_refl). }
+               (fun _ => I) I negttl (mkD w0 []) g0 am0 qname Gq Hz qtype (mkD w []) (g_prepared qname) Ap rec_empty Sp HRel0 eq_refl). }
   rewrite Edr in Q. cbn [QC] in Q.
   destruct Q as (d3 & g3 & A3 & r3 & (ops & outs & L & Rall & Hi & HA) & Hw3 & _ & Er & ((Hm3 & Han & Hns) & (M & X & O & Har & Hro & HsubX))).
   destruct (Reach_run Pop_t _ _ _ _ _ _ Rall) as (Hrun & Hrc & F1 & F2 & F3 & F4 & Hlen).
